@@ -421,7 +421,16 @@ def aligned(ctx):
     _expect(ctx, "R10.aligned", c, ["prefix_aligned_bad"], ["prefix_aligned_good"])
 
 
-ALL = {"aligned": aligned, "borrowed": borrowed, "wrapsum": wrapsum, "bitfield": bitfield, "masked_tail": masked_tail, "loopcursor": loopcursor, "scaledext": scaledext, "varint": varint, "threadcount": threadcount, "sizekind": sizekind, "lenext": lenext, "xxh": xxh, "signedoff": signedoff, "reqalloc": reqalloc, "fieldfit": fieldfit, "stalefield": stalefield, "hidden": hidden, "region_args": region_args, "widen": widen, "progress": progress, "lazyinit": lazyinit, "lanes": lanes, "atomic": atomic, "feasible": feasible, "endian": endian, "units": units, "alloc": alloc, "status": status, "ownership": ownership, "cursor": cursor, "arrays": arrays,
+def growth(ctx):
+    from .rules import growth as gr
+    P = program()
+    c = _sub()
+    n = gr.check(c, [P.fn("growth_bad"), P.fn("growth_good")])
+    ctx.control("R46.growth finds the control branches", n == 2, str(n))
+    _expect(ctx, "R46.growth", c, ["growth_bad"], ["growth_good"])
+
+
+ALL = {"growth": growth, "aligned": aligned, "borrowed": borrowed, "wrapsum": wrapsum, "bitfield": bitfield, "masked_tail": masked_tail, "loopcursor": loopcursor, "scaledext": scaledext, "varint": varint, "threadcount": threadcount, "sizekind": sizekind, "lenext": lenext, "xxh": xxh, "signedoff": signedoff, "reqalloc": reqalloc, "fieldfit": fieldfit, "stalefield": stalefield, "hidden": hidden, "region_args": region_args, "widen": widen, "progress": progress, "lazyinit": lazyinit, "lanes": lanes, "atomic": atomic, "feasible": feasible, "endian": endian, "units": units, "alloc": alloc, "status": status, "ownership": ownership, "cursor": cursor, "arrays": arrays,
        "recursion": recursion, "narrowing": narrowing, "skeleton": skeleton, "must_pass": must_pass}
 
 
